@@ -75,6 +75,9 @@ func (n c03Node) Source() string {
 	if n.tag == "template" {
 		return fmt.Sprintf(`<template%s><p data-m="%d">x</p></template>`, dir, n.id)
 	}
+	if n.tag == "include" {
+		return fmt.Sprintf(`<template include="mk.vuego" m="%d"%s><i>supplied</i></template>`, n.id, dir)
+	}
 	return fmt.Sprintf(`<p data-m="%d"%s>x</p>`, n.id, dir)
 }
 
@@ -256,16 +259,18 @@ func runC03(r *Run) {
 					members++
 					if rr.Intn(4) == 0 {
 						nodes[i].tag = "template"
+					} else if rr.Intn(6) == 0 {
+						nodes[i].tag = "include" // the member is an include of a component that prints the mark
 					}
 					switch rr.Intn(6) {
 					case 0:
 						// only on else-members: v-for on the v-if head itself is evaluated before the v-if
 						// (per-item condition), where "the chain" is not what the property describes
-						if nodes[i].tag != "template" && k != "if" {
+						if nodes[i].tag == "p" && k != "if" {
 							nodes[i].deco = "for1"
 						}
 					case 1:
-						if nodes[i].tag != "template" {
+						if nodes[i].tag == "p" {
 							nodes[i].deco = "show"
 						}
 					}
@@ -305,6 +310,14 @@ func runC03(r *Run) {
 			case "tplfor2":
 				src = `<template v-for="r in two">` + body + "</template>"
 				repeat = 2
+			}
+			for _, n := range nodes {
+				if n.tag == "include" {
+					if files == nil {
+						files = fstest.MapFS{}
+					}
+					files["mk.vuego"] = &fstest.MapFile{Data: []byte(`<p :data-m="m">x<slot></slot></p>`)}
+				}
 			}
 			var out string
 			var err error
